@@ -410,7 +410,18 @@ def _compile(source, filename="<string>", mode="exec", flags=0, dont_inherit=Tru
     return compile(source, filename, mode, flags, True, optimize)
 
 
+def _json_dump(obj, fp, **k):
+    import io as _io
+    import json as _json
+
+    if not isinstance(fp, _io.StringIO):
+        raise PyRaise("TypeError")  # a file opened in binary mode, or not a file
+    _json.dump(obj, fp, **k)
+
+
 SPEC_CALLABLES = {
+    "json.dump": _Spec(_json_dump, "json.dump"),
+    "json.dumps": _Spec(__import__("json").dumps, "json.dumps"),
     "marshal.dumps": _Spec(__import__("marshal").dumps, "marshal.dumps"),
     "pickletools.genops": _Spec(_genops, "pickletools.genops"),
     "ast.unparse": _Spec(ast.unparse, "ast.unparse"),
@@ -982,7 +993,7 @@ class OEvaluator(Evaluator):
             if attr in ("size", "format"):
                 return getattr(v, attr)
             raise Unsupported(f"attribute .{attr} of a struct.Struct")
-        if isinstance(v, (str, bytes, bytearray, int, list, dict, tuple, float, set, frozenset, __import__("io").BytesIO, __import__("io").BufferedReader, __import__("re").Pattern, __import__("re").Match)) and not isinstance(v, bool):
+        if isinstance(v, (str, bytes, bytearray, int, list, dict, tuple, float, set, frozenset, __import__("io").BytesIO, __import__("io").StringIO, __import__("io").BufferedReader, __import__("re").Pattern, __import__("re").Match)) and not isinstance(v, bool):
             return _PyMethod(v, attr)
         raise Unsupported(f"attribute .{attr} of a {type(v).__name__}")
 
@@ -1403,6 +1414,7 @@ _PY_METHODS = {
     __import__("re").Pattern: {"match", "fullmatch", "search", "sub", "subn", "findall", "split", "finditer"},
     __import__("re").Match: {"group", "groups", "groupdict", "start", "end", "span"},
     bytearray: {"extend", "append", "decode", "startswith", "endswith", "hex", "find", "count", "copy", "clear", "pop", "insert", "join", "replace"},
+    __import__("io").StringIO: {"write", "read", "getvalue", "close", "seek", "tell", "readline", "flush"},
     __import__("io").BufferedReader: {"read", "seek", "tell", "seekable", "readable", "readline", "peek", "close", "read1", "readinto"},
     __import__("io").BytesIO: {"read", "seek", "tell", "seekable", "readable", "readline", "getvalue", "write", "close", "peek", "getbuffer", "truncate"},
     set: {"add", "discard", "update", "union", "copy", "issubset", "issuperset", "intersection", "difference", "remove"},
